@@ -476,6 +476,79 @@ theorem gauss_nodes_inside (a b : α) (x w : List α) (hab : a < b) (hx : ∀ xi
 
 end Field
 
+/-! ## end-to-end totals / row sums / symmetry of the Kronecker paths -/
+
+section KronConsequences
+variable {α : Type} [CommRing α]
+
+/-- **total mass of the Kronecker paths**: the entries of `bsp_mass_2d` sum to the product of the
+1-D totals (`= area` of the parameter box by `mass_total_1d` on each axis) -/
+theorem mass_total_2d (M1 M2 : List (List α)) :
+    ∑ i ∈ range (matRows M1 * matRows M2), ∑ j ∈ range (matCols M1 * matCols M2), get2 (mass2d M1 M2) i j =
+      (∑ i ∈ range (matRows M1), ∑ j ∈ range (matCols M1), get2 M1 i j) *
+      (∑ i ∈ range (matRows M2), ∑ j ∈ range (matCols M2), get2 M2 i j) := by
+  rw [← kron_total_fn]
+  apply Finset.sum_congr rfl; intro i hi
+  apply Finset.sum_congr rfl; intro j hj
+  unfold mass2d kron
+  exact get2_map_range _ _ _ i j (Finset.mem_range.mp hi) (Finset.mem_range.mp hj)
+
+/-- … and of `bsp_mass_3d`: product of the three 1-D totals (`= volume`) -/
+theorem mass_total_3d (M0 M1 M2 : List (List α)) (h : 0 < matRows M1 * matRows M2) :
+    ∑ i ∈ range (matRows M0 * (matRows M1 * matRows M2)), ∑ j ∈ range (matCols M0 * (matCols M1 * matCols M2)),
+        get2 (mass3d M0 M1 M2) i j =
+      (∑ i ∈ range (matRows M0), ∑ j ∈ range (matCols M0), get2 M0 i j) *
+      ((∑ i ∈ range (matRows M1), ∑ j ∈ range (matCols M1), get2 M1 i j) *
+       (∑ i ∈ range (matRows M2), ∑ j ∈ range (matCols M2), get2 M2 i j)) := by
+  have h2 := mass_total_2d M0 (kron M1 M2)
+  rw [matRows_kron, matCols_kron _ _ h] at h2
+  unfold mass3d
+  unfold mass2d at h2
+  rw [h2]
+  congr 1
+  exact mass_total_2d M1 M2
+
+/-- row sums of `bsp_stiffness_2d` (geo=None) in terms of the 1-D row sums -/
+theorem stiffness_row_sum_2d (M1 K1 M2 K2 : List (List α))
+    (hr1 : matRows K1 = matRows M1) (hc1 : matCols K1 = matCols M1)
+    (hr2 : matRows K2 = matRows M2) (hc2 : matCols K2 = matCols M2)
+    (i1 i2 : Nat) (hi1 : i1 < matRows M1) (hi2 : i2 < matRows M2) :
+    ∑ j ∈ range (matCols M1 * matCols M2), get2 (stiffness2d M1 K1 M2 K2) (i1 * matRows M2 + i2) j =
+      (∑ j1 ∈ range (matCols M1), get2 K1 i1 j1) * (∑ j2 ∈ range (matCols M2), get2 M2 i2 j2) +
+      (∑ j1 ∈ range (matCols M1), get2 M1 i1 j1) * (∑ j2 ∈ range (matCols M2), get2 K2 i2 j2) := by
+  rw [sum_range_kron, Finset.sum_mul_sum, Finset.sum_mul_sum, ← Finset.sum_add_distrib]
+  apply Finset.sum_congr rfl; intro j1 hj1
+  rw [← Finset.sum_add_distrib]
+  apply Finset.sum_congr rfl; intro j2 hj2
+  exact stiffness2d_entry M1 K1 M2 K2 hr1 hc1 hr2 hc2 i1 i2 j1 j2 hi1 hi2
+    (Finset.mem_range.mp hj1) (Finset.mem_range.mp hj2)
+
+/-- **`K·1 = 0` for the 2-D Kronecker path**: if the rows of both 1-D stiffness matrices sum to zero
+(`stiffness_row_sum_1d`), so do the rows of `kron(K1,M2) + kron(M1,K2)`. -/
+theorem stiffness_row_sum_zero_2d (M1 K1 M2 K2 : List (List α))
+    (hr1 : matRows K1 = matRows M1) (hc1 : matCols K1 = matCols M1)
+    (hr2 : matRows K2 = matRows M2) (hc2 : matCols K2 = matCols M2)
+    (i1 i2 : Nat) (hi1 : i1 < matRows M1) (hi2 : i2 < matRows M2)
+    (hz1 : ∑ j1 ∈ range (matCols M1), get2 K1 i1 j1 = 0) (hz2 : ∑ j2 ∈ range (matCols M2), get2 K2 i2 j2 = 0) :
+    ∑ j ∈ range (matCols M1 * matCols M2), get2 (stiffness2d M1 K1 M2 K2) (i1 * matRows M2 + i2) j = 0 := by
+  rw [stiffness_row_sum_2d M1 K1 M2 K2 hr1 hc1 hr2 hc2 i1 i2 hi1 hi2, hz1, hz2]; ring
+
+/-- symmetry of the 2-D Kronecker matrices at Kronecker indices from symmetry of the factors -/
+theorem stiffness_symmetric_2d (M1 K1 M2 K2 : List (List α))
+    (hr1 : matRows K1 = matRows M1) (hc1 : matCols K1 = matCols M1)
+    (hr2 : matRows K2 = matRows M2) (hc2 : matCols K2 = matCols M2)
+    (hsq1 : matCols M1 = matRows M1) (hsq2 : matCols M2 = matRows M2)
+    (hM1 : ∀ i j, get2 M1 i j = get2 M1 j i) (hK1 : ∀ i j, get2 K1 i j = get2 K1 j i)
+    (hM2 : ∀ i j, get2 M2 i j = get2 M2 j i) (hK2 : ∀ i j, get2 K2 i j = get2 K2 j i)
+    (i1 i2 j1 j2 : Nat) (hi1 : i1 < matRows M1) (hi2 : i2 < matRows M2) (hj1 : j1 < matRows M1) (hj2 : j2 < matRows M2) :
+    get2 (stiffness2d M1 K1 M2 K2) (i1 * matRows M2 + i2) (j1 * matCols M2 + j2) =
+      get2 (stiffness2d M1 K1 M2 K2) (j1 * matRows M2 + j2) (i1 * matCols M2 + i2) := by
+  rw [stiffness2d_entry M1 K1 M2 K2 hr1 hc1 hr2 hc2 i1 i2 j1 j2 hi1 hi2 (hsq1 ▸ hj1) (hsq2 ▸ hj2),
+    stiffness2d_entry M1 K1 M2 K2 hr1 hc1 hr2 hc2 j1 j2 i1 i2 hj1 hj2 (hsq1 ▸ hi1) (hsq2 ▸ hi2),
+    hK1 i1 j1, hM2 i2 j2, hM1 i1 j1, hK2 i2 j2]
+
+end KronConsequences
+
 /-! ## n-D `inner_products` / `integrate`, tensor-product and boundary quadrature -/
 
 section Tprod
